@@ -87,46 +87,13 @@ pub fn write(
                 stack_pointer,
                 MaxStackLen::None,
             )?;
-            // Copy 256 bytes around crashing instruction pointer to minidump.
-            let ip_memory_size: usize = 256;
-            // Bound it to the upper and lower bounds of the memory map
-            // it's contained within. If it's not in mapped memory,
-            // don't bother trying to write it.
-            for mapping in &dumper.mappings {
-                if instruction_ptr < mapping.start_address
-                    || instruction_ptr >= mapping.start_address + mapping.size
-                {
-                    continue;
-                }
-                // Try to get 128 bytes before and after the IP, but
-                // settle for whatever's available.
-                let mut ip_memory_d = MDMemoryDescriptor {
-                    start_of_memory_range: std::cmp::max(
-                        mapping.start_address,
-                        instruction_ptr - ip_memory_size / 2,
-                    ) as u64,
-                    ..Default::default()
-                };
-
-                let end_of_range = std::cmp::min(
-                    mapping.start_address + mapping.size,
-                    instruction_ptr + ip_memory_size / 2,
-                ) as u64;
-                ip_memory_d.memory.data_size =
-                    (end_of_range - ip_memory_d.start_of_memory_range) as u32;
-
-                let memory_copy = PtraceDumper::copy_from_process(
-                    thread.thread_id as i32,
-                    ip_memory_d.start_of_memory_range as _,
-                    ip_memory_d.memory.data_size as usize,
-                )?;
-
-                let mem_section = MemoryArrayWriter::alloc_from_array(buffer, &memory_copy)?;
-                ip_memory_d.memory = mem_section.location();
-                config.memory_blocks.push(ip_memory_d);
-
-                break;
-            }
+            write_instruction_pointer_memory(
+                config,
+                buffer,
+                dumper,
+                thread.thread_id as i32,
+                instruction_ptr,
+            )?;
             // let cpu = MemoryWriter::alloc(buffer, &memory_copy)?;
             let mut cpu: RawContextCPU = Default::default();
             let crash_context = config.crash_context.as_ref().unwrap();
@@ -171,7 +138,73 @@ pub fn write(
         }
         thread_list.set_value_at(buffer, thread, idx)?;
     }
+
+    if let (Some(crash_context), CrashingThreadContext::None) =
+        (&config.crash_context, &config.crashing_thread_context)
+    {
+        // The blamed thread is not in the list (it could not be attached to). The memory around
+        // the crashing instruction pointer can be read without attaching.
+        let instruction_ptr = crash_context.get_instruction_pointer();
+        let blamed_thread = config.blamed_thread;
+        // Best effort: a blamed thread that does not exist at all cannot be read through.
+        let _ = write_instruction_pointer_memory(
+            config,
+            buffer,
+            dumper,
+            blamed_thread,
+            instruction_ptr,
+        );
+    }
     Ok(dirent)
+}
+
+/// Copies up to 256 bytes around the crashing instruction pointer to the minidump.
+fn write_instruction_pointer_memory(
+    config: &mut MinidumpWriter,
+    buffer: &mut DumpBuf,
+    dumper: &PtraceDumper,
+    thread_id: i32,
+    instruction_ptr: usize,
+) -> Result<(), errors::SectionThreadListError> {
+    let ip_memory_size: usize = 256;
+    // Bound it to the upper and lower bounds of the memory map
+    // it's contained within. If it's not in mapped memory,
+    // don't bother trying to write it.
+    for mapping in &dumper.mappings {
+        if instruction_ptr < mapping.start_address
+            || instruction_ptr >= mapping.start_address + mapping.size
+        {
+            continue;
+        }
+        // Try to get 128 bytes before and after the IP, but
+        // settle for whatever's available.
+        let mut ip_memory_d = MDMemoryDescriptor {
+            start_of_memory_range: std::cmp::max(
+                mapping.start_address,
+                instruction_ptr - ip_memory_size / 2,
+            ) as u64,
+            ..Default::default()
+        };
+
+        let end_of_range = std::cmp::min(
+            mapping.start_address + mapping.size,
+            instruction_ptr + ip_memory_size / 2,
+        ) as u64;
+        ip_memory_d.memory.data_size = (end_of_range - ip_memory_d.start_of_memory_range) as u32;
+
+        let memory_copy = PtraceDumper::copy_from_process(
+            thread_id,
+            ip_memory_d.start_of_memory_range as _,
+            ip_memory_d.memory.data_size as usize,
+        )?;
+
+        let mem_section = MemoryArrayWriter::alloc_from_array(buffer, &memory_copy)?;
+        ip_memory_d.memory = mem_section.location();
+        config.memory_blocks.push(ip_memory_d);
+
+        break;
+    }
+    Ok(())
 }
 
 fn fill_thread_stack(
